@@ -22,6 +22,7 @@
 import __future__
 import abc
 import inspect
+import keyword
 import sys
 import types
 from itertools import zip_longest
@@ -1008,7 +1009,8 @@ def _mask(sig, num_args, hide_args, hide_kwargs,
             raise ValueError(
                 'Named parameter {0!r} not found in signature: {1}'
                 .format(kwarg_name, sig))
-        elif partial_mode and not any(
+        elif partial_mode and kwarg_name.isidentifier() \
+                and not keyword.iskeyword(kwarg_name) and not any(
                 p.name == kwarg_name
                 for p in posargs + [varargs, varkwargs] if p):
             kwoargs[kwarg_name] = UpgradedParameter(
